@@ -75,7 +75,9 @@ namespace awkward {
 
   int64_t
   RecordBuilder::length() const {
-    return length_;
+    // -1 marks a builder that has not begun its first record (new or cleared):
+    // it holds nothing
+    return (length_ == -1 ? 0 : length_);
   }
 
   void
